@@ -19,6 +19,8 @@ use taskchampion::{Operation, Operations, Replica, Uuid};
 mod faulty;
 mod sync_scn;
 mod model_scn;
+mod cloud_scn;
+mod refcrypto;
 
 pub fn uuid_of(n: u64) -> Uuid {
     Uuid::from_u128(n as u128)
@@ -82,6 +84,8 @@ fn run_one(scn: &Value) -> Value {
     let r = std::panic::catch_unwind(std::panic::AssertUnwindSafe(|| match kind {
         "sync" => sync_scn::run(scn),
         "model" => model_scn::run(scn),
+        "cloud" => cloud_scn::run(scn),
+        "seal" => cloud_scn::run_seal(scn),
         _ => json!({"error": format!("unknown scenario kind {kind}")}),
     }));
     match r {
